@@ -28,8 +28,8 @@ def build(H, tier, seed):
 
 def standins(tier, seed):
     ops = ['gp', 'op', 'add', 'sw', 'proj', 'inv', 'div', 'normsq', 'reverse', 'hodge', 'outerexp', 'sqrt', 'regf']
-    cfgs = [dict(p=2, q=0, r=1, random=3), dict(p=3, random=3)] if tier == 'quick' else \
+    cfgs = [dict(p=2, q=0, r=1, random=3), dict(p=3, random=3), dict(p=2, q=1, wrapper='wraps', random=2)] if tier == 'quick' else \
         [dict(p=2, q=0, r=1, random=10), dict(p=3, random=10), dict(p=2, q=2, random=6), dict(p=3, q=0, r=1, random=6),
-         dict(p=2, q=1, wrapper='identity', random=6), dict(p=2, cse=False, random=6)]
+         dict(p=2, q=1, wrapper='identity', random=6), dict(p=2, q=1, wrapper='wraps', random=6), dict(p=2, cse=False, random=6)]
     return [{'name': f'count#{i}', 'bound': 'seeded key patterns x value kinds int/float/Fraction/ndarray/sympy; compile(), do_codegen, do_compile events counted on repeats',
              'job': {'kind': 'count', 'module': 'standins.jobs2', 'ops': ops, 'configs': [c], 'seed': seed + i}} for i, c in enumerate(cfgs)]
